@@ -151,6 +151,8 @@ def arg_precedence(ctx):
             nxt = body[i + 1] if i + 1 < len(body) else None
             seqs.append((n, nxt))
     ctx.require(seqs, "_get_cache_kw: template cache_args copy not found")
+    wrong = [n for n in walk_func(gk) if isinstance(n, ast.Call) and isinstance(n.func, ast.Attribute) and n.func.attr == "update" and n.args and "cache_args" in src(n.args[0])]
+    ctx.check(len(seqs) >= 2 and not wrong, "template-then-call.all-branches", db.where(gk), "a branch of _get_cache_kw lets Template cache_args override the call's arguments (%d copy-then-update sequences, %d reversed updates)" % (len(seqs), len(wrong)), "both branches: copy of Template cache_args updated with the call's kwargs")
     for n, nxt in seqs:
         ctx.check(nxt is not None and src(nxt) == "%s.update(kw)" % src(n.targets[0]), "template-then-call:%d" % n.lineno, db.where(n), "Template cache_args are not overridden by the call's keyword arguments", "cache_args.copy() then update(kw)")
     ifs = [n for n in walk_func(gk) if isinstance(n, ast.If) and "pass_context" in src(n.test)]
